@@ -384,6 +384,45 @@ def _defaults_case(override, preemptions):
     return case
 
 
+WAIT_BAD = """
+version: '2.0'
+wf:
+  tasks:
+    t:
+      action: std.echo output=1
+      input:
+        extra: 1
+      @@WHICH@@: 1
+      on-error: err
+    err:
+      action: std.noop
+"""
+
+
+def _wait_bad_input_case(which):
+    """the action of a postponed task cannot be started (unexpected input
+    parameter): the task must end ERROR exactly as without the policy"""
+    def case():
+        from vt.world import World
+        sig = 'C08.%s-bad-input' % which
+        w = World([WAIT_BAD.replace('@@WHICH@@', which)])
+        with w:
+            wid = w.start('wf')
+            w.run(max_events=60)
+            reach('quiescent')
+            t = w.task('t', wid)
+            wf = w.wf_ex(wid)
+            info = {'task': t and t['state'], 'wf': wf['state'],
+                    'errors': [(m, repr(e)[:160]) for m, e in w.errors]}
+            check(t is not None and t['state'] == 'ERROR' and
+                  wf['state'] in ('ERROR', 'SUCCESS'),
+                  'postponed-task-that-cannot-start-is-stuck',
+                  dict(info, signature=sig + ':stuck'))
+            check(not w.errors, 'scheduler-job-raised',
+                  dict(info, signature=sig + ':job-raised'))
+    return case
+
+
 EXPR_POLICIES = """
 version: '2.0'
 wf:
@@ -516,7 +555,8 @@ def _two_runs_case(level):
                      'task-level retry; the same definition run twice in '
                      'one engine process with solver-chosen values of the '
                      'expression-valued wait-before / wait-after / timeout '
-                     '/ pause-before (task level and task-defaults)',
+                     '/ pause-before (task level and task-defaults); a '
+                     'postponed task whose action cannot be started',
             'thorough': '<= 2 out-of-order deliveries'},
     stubs=['minidb', 'QueueRPC', 'FakeScheduler (timers are events)',
            'FakeExecutor', 'post-commit queue inline',
@@ -552,6 +592,9 @@ def c08_e(ctx):
                needed=['paused-before', 'resumed'])
     for o in ('none', 'zero', 'one'):
         yield Case('defaults/%s' % o, _defaults_case(o, 0),
+                   needed=['quiescent'])
+    for which in ('wait-before', 'wait-after', 'timeout'):
+        yield Case('%s/bad-input' % which, _wait_bad_input_case(which),
                    needed=['quiescent'])
     for level in ('task', 'defaults'):
         yield Case('two-runs/%s' % level, _two_runs_case(level),
